@@ -44,7 +44,7 @@ def check_effects(rnd):
     if all((int(sid[r]), int(t)) in want for r in range(n) for t in tid[r]):
         arr = create_single_treatment_effect_array(sid, tid, obs)
         if not np.allclose(arr, [[want[(int(sid[r]), int(t))] for t in tid[r]] for r in range(n)], **TOL): return "single-agent effect array"
-    if ar == 2 and not np.all((tid == -1).all(axis=1)):
+    if ar == 2 and not np.all((tid == -1).all(axis=1)):  # synergy: arity 2 only (the property restricts it to the rectangular case)
         keep = ~(tid == -1).all(axis=1)
         s2, t2, o2 = sid[keep], tid[keep], obs[keep]
         mp2 = {(int(k[0]), int(k[1])): float(v) for k, v in create_single_treatment_effect_map(s2, t2, o2).items()}
